@@ -37,3 +37,17 @@ Definition is_local (a b : nat) (k : pkind) : bool :=
   list_eqb (sites_of k) [a; b] || list_eqb (sites_of k) [a] || list_eqb (sites_of k) [b].
 Definition local_procs {A} (kind_of : A -> pkind) (a b : nat) (procs : list A) : list A :=
   filter (fun p => is_local a b (kind_of p)) procs.
+
+(* dissipation.apply_dissipation: the right-to-left sweep damps with exp(-dt/2 gamma_k L_k^+ L_k) of process k
+     at site i: every one-site process sitting on i, in list order; then every two-site process whose RIGHT site is i (i > 0)
+   entries: (site at which the sweep treats it, position k of the process in noise_model.processes) *)
+Definition damp_here (i : nat) (k : pkind) : bool :=
+  match k with One s => Nat.eqb s i | Two _ t => Nat.eqb t i && negb (Nat.eqb i 0) end.
+Definition two_site (k : pkind) : bool := match k with One _ => false | Two _ _ => true end.
+Definition damp_at (kinds : list pkind) (i : nat) : list (nat * nat) :=
+  let idx := combine (seq 0 (length kinds)) kinds in
+  map (fun p => (i, fst p)) (filter (fun p => negb (two_site (snd p)) && damp_here i (snd p)) idx) ++
+  map (fun p => (i, fst p)) (filter (fun p => two_site (snd p) && damp_here i (snd p)) idx).
+Definition damp_schedule (L : nat) (kinds : list pkind) : list (nat * nat) := flat_map (damp_at kinds) (rev (seq 0 L)).
+(* is the process reached by the sweep of a chain of length L?  (NoiseModel sorts the sites of a two-site process: s < t) *)
+Definition damp_reached (L : nat) (k : pkind) : bool := match k with One s => s <? L | Two s t => (s <? t) && (t <? L) end.
